@@ -403,6 +403,26 @@ theorem power_pump_no_reverse_counterexample : ¬ PowerPumpNoReverse := by
     (by norm_num) (by norm_num) (by decide +kernel)
   norm_num at this
 
+/-- with the PROPOSED repair of `_ClosePowerPumpCondition` (fixes/C02-power-pump-reverse-flow.patch) an open power pump that
+stays open through the post-solve pass has flow ≥ −Qtol -/
+theorem power_pump_no_reverse_at_fixpoint (Htol Qtol Hmax hs he q : Rat) (openFires : Bool)
+    (h : postsolveInternal (closePowerPumpRepaired Htol Qtol Hmax hs he q) openFires .opened = .opened) : -Qtol ≤ q := by
+  cases hc : closePowerPumpRepaired Htol Qtol Hmax hs he q with
+  | true => simp [postsolveInternal, hc] at h
+  | false =>
+    simp only [closePowerPumpRepaired, Bool.or_eq_false_iff, decide_eq_false_iff_not] at hc
+    exact Rat.not_lt.1 hc.2
+
+/-- and the repaired open condition never re-opens a pump whose end head is not above its start head (no open / close cycling
+at the spurious root): closed stays closed there -/
+theorem power_pump_downhill_stays_closed (Htol Hmax hs he : Rat) (hH : 0 ≤ Htol) (hd : he ≤ hs) (closeFires : Bool) :
+    postsolveInternal false (openPowerPumpRepaired Htol Hmax hs he) .closed = .closed := by
+  have : ¬ Htol < he - hs := by
+    intro h
+    have : he - hs ≤ 0 := by linarith
+    linarith
+  simp [postsolveInternal, openPowerPumpRepaired, this]
+
 /-- what IS true: a power pump that adds head (`H_end > H_start`) has positive flow -/
 theorem power_pump_no_reverse_partial (P gamma hs he q : ℝ) (hP : 0 < P) (hg : 0 < gamma)
     (hrow : P + (hs - he) * q * gamma = 0) (hdh : hs < he) : 0 < q := by
